@@ -72,8 +72,10 @@ def make_ops(rng, cfg, profile, tier):
         elif r < 0.76:
             ops.append({'op': 'PARTS', 'a': [rng.randrange(2, 6), rng.randrange(1 << 16) % 5, rng.randrange(1 << 16),
                                              rng.choice(tchoices)]})
-        elif r < 0.82:
+        elif r < 0.79:
             ops.append({'op': 'PER_OBS', 'a': [rng.randrange(1 << 16) % 5]})
+        elif r < 0.82:
+            ops.append({'op': 'SPLIT_PARTS', 'a': [rng.randrange(2, 6), rng.randrange(1 << 16) % 5, rng.random() < 0.3]})
         elif r < 0.85:
             ops.append({'op': 'SET_THREADS', 'a': [rng.randrange(64), rng.choice(tchoices)]})
         elif r < 0.88:
@@ -151,9 +153,12 @@ class Session:
             ll = ex.log(ex.PanelLikelihoodTrajectory(ex.exp(ll)))
         forms = {'log_like': ll}
         if w is not None:
-            forms['weight'] = w
+            # the accepted aliases of the two keys, and both insertion orders (buggify)
+            wkey = 'weights' if cfg['data_seed'] % 3 == 0 else 'weight'
+            lkey = 'loglike' if cfg['data_seed'] % 5 == 0 else 'log_like'
+            forms = {lkey: ll, wkey: w}
             if (threads or 0) % 2:
-                forms = {'weight': w, 'log_like': ll}     # buggify: insertion order of the formulas
+                forms = {wkey: w, lkey: ll}
         d = db.Database('d', t)
         if self.cfg.get('panel'):
             d.panel('grp')
@@ -320,7 +325,7 @@ class Session:
         kind, a = op['op'], op['a']
         ctx.count('op:' + kind)
         np = self.np
-        if self.cfg.get('panel') and kind in ('PARTS', 'PER_OBS', 'SIM', 'H_NULL'):
+        if self.cfg.get('panel') and kind in ('PARTS', 'PER_OBS', 'SIM', 'H_NULL', 'SPLIT_PARTS'):
             # cross-sectional comparisons: replaced by a plain evaluation on panel data
             kind, a = 'LLD', [a[0] if kind != 'PARTS' else 0, (a[1] if len(a) > 1 else a[0]) % 5, False, True, True]
         if kind == 'MAKE':
@@ -350,10 +355,12 @@ class Session:
             x = self.point(a[1])
             sim = rec['b'].simulate({n: x[n] for n in self.names})
             _, rows, w = self.ref_ll(x, rec['table'])
-            got = [float(v) for v in sim['log_like'].to_list()]
+            lcol = 'log_like' if 'log_like' in sim.columns else 'loglike'
+            wcol = 'weight' if 'weight' in sim.columns else ('weights' if 'weights' in sim.columns else None)
+            got = [float(v) for v in sim[lcol].to_list()]
             self._cmp('per-observation simulated values', got, rows, oracle='I04.sim')
-            gw = [float(v) for v in sim['weight'].to_list()] if 'weight' in sim.columns else [1.0] * len(got)
-            if 'weight' in sim.columns:
+            gw = [float(v) for v in sim[wcol].to_list()] if wcol else [1.0] * len(got)
+            if wcol:
                 self._cmp('per-observation simulated weights', gw, w, oracle='I04.sim')
             ll = float(rec['b'].calculate_likelihood(self.vec(x), scaled=False))
             self._cmp('log likelihood vs sum of weight x simulated value', ll, sum(p * q for p, q in zip(gw, got)))
@@ -381,6 +388,28 @@ class Session:
             self._memo(('x', xs, 'h'), f'hessian[sum of {P} parts]', tot_h, oracle='I04.parts')
             self._memo(('x', xs, 'b'), f'bhhh[sum of {P} parts]', tot_b, oracle='I04.parts')
             ctx.log(kind, P, fhex(tot_f))
+        elif kind == 'SPLIT_PARTS':
+            # the parts come from the library's own split(): the validation parts partition the rows, so their
+            # log likelihoods add up to the log likelihood of the whole sample
+            import biogeme.database as db
+            k, xs, use_groups = a
+            x = self.point(xs)
+            d0 = db.Database('whole', self.table.copy())
+            folds = d0.split(k, groups='grp' if use_groups else None)
+            tot = 0.0
+            nrows = 0
+            for f_ in folds:
+                if len(f_.validation) == 0:
+                    continue
+                rec = self.make_object(1, None, table=f_.validation.reset_index(drop=True))
+                self.objects.pop()
+                tot += float(rec['b'].calculate_likelihood(self.vec(x), scaled=False))
+                nrows += len(f_.validation)
+            want, _, _ = self.ref_ll(x)
+            if nrows != self.N:
+                ctx.fail('I04.parts', f'the validation parts of split({k}) hold {nrows} rows, the sample has {self.N}')
+            self._cmp(f'sum of the log likelihoods of the {k} validation parts of split()', tot, want, oracle='I04.parts')
+            ctx.log(kind, k, fhex(tot))
         elif kind == 'PER_OBS':
             x = self.point(a[0])
             out = self.per_obs(x)
@@ -556,7 +585,11 @@ class Session:
                                     f'one {r.data.initLogLike!r}')
         # (2) bounds
         self._bounds_ok(algo, est, 'estimate')
-        # (3) derivatives reported = derivatives at that point, by a fresh object and by the same object
+        # (3) derivatives reported = derivatives at that point, by a fresh object and by the same object; the same
+        # object first computes derivatives somewhere else (what the results hold must be theirs, not a view of
+        # whatever the object computed last)
+        other = self.vec(self.point(7))
+        b.calculate_likelihood_and_derivatives(other, scaled=False, hessian=True, bhhh=True)
         fresh = self.make_object(1, None)
         self.objects.pop()
         for who, obj in (('a fresh object', fresh['b']), ('the same object', b)):
